@@ -3,6 +3,7 @@ import GenlmModel.Proofs.Fast
 import GenlmModel.Proofs.Fst
 import GenlmModel.Proofs.Tab
 import GenlmModel.Proofs.Compose
+import GenlmModel.Proofs.LimPrefix
 /-! # C09 — grammar∘transducer composition is relational composition
 About the mirror model `compose` / `composeAll` of `CFG.__matmul__` (weighted Bar-Hillel construction
 with the ε handling of the code: special rules `a → ε a`, `Other(S)`), every commutative semiring.
@@ -23,4 +24,10 @@ alias pruning_irrelevant := Genlm.compose_eq_composeAll
 alias compose_acceptor := Genlm.compose_acceptor
 alias compose_string := Genlm.compose_string
 alias driver_compose_is_model := Genlm.composeShared_eq
+
+/-! ## at the limit (ℝ≥0∞) -/
+/-- the composed grammar (all items / the pruned construction the code builds) weighs y with Σ_x G(x)·T(x,y), the sums
+ranging over ALL input strings, derivations and transducer paths (ε on both tapes, cycles) -/
+alias compose_true_limit := Genlm.compose_WL
+alias compose_pruned_true_limit := Genlm.compose_WL'
 end Genlm.Props.C09
